@@ -1,9 +1,71 @@
-(* C12 — The transaction state cache reads back its own writes. Property theorems only. *)
+(* C12 — The transaction state cache reads back its own writes. Property theorems only.
+   Model: coq/Model/C12_Track.v (the code), coq/Model/C12_View.v (the specification: `view` = database
+   overlaid with creations, writes and removals; `adm` = the client obligations of the Track API;
+   `reach` = states reached by admissible, non-panicking operations; `conforms` = every result of a
+   run is allowed by the specification). All statements quantify over every base database with
+   key-sorted partitions (db_wf) and every operation sequence. *)
 From Coq Require Import List NArith Bool.
 Import ListNotations.
-Require Import RV.Model.C12_Track.
+Require Import RV.Model.C12_Track RV.Model.C12_View RV.Proof.C12_Drain RV.Proof.C12_Main RV.Proof.C12_Ops RV.Proof.C12_Track.
 Open Scope N_scope.
 
+(* every run of every operation sequence conforms to the view specification: reads and removes return
+   the view, limited scans/drains return distinct present keys up to the limit (or all of them), sorted
+   scans return the first entries of the view, as long as each operation is admissible where it is
+   issued. For ORevert admissibility is `no_blind_overwrite` (see C12_read_after_revert_refuted): this
+   theorem is the `except_known` statement for the finding garbage-after-revert. *)
+Theorem C12_refines_view : forall db ops, db_wf db -> conforms db track_new (vinit db) ops.
+Proof. exact refines_view. Qed.
+
+Theorem C12_read_your_writes : forall db t s n p k, db_wf db -> reach db t s ->
+  snd (fst (get_substate db t n p k)) = al_get k (v_view s n p) /\
+  snd (fst (remove_substate db t n p k)) = al_get k (v_view s n p).
+Proof. exact read_your_writes. Qed.
+
+Theorem C12_scan_keys : forall db t s n p limit, db_wf db -> reach db t s ->
+  let ks := snd (fst (scan_keys db t n p limit)) in
+  scan_spec limit (v_view s n p) ks /\ N.of_nat (length ks) = N.min limit (N.of_nat (length (v_view s n p))).
+Proof. exact scan_keys_ok. Qed.
+
+Theorem C12_drain : forall db t s n p limit, db_wf db -> reach db t s ->
+  let kvs := snd (fst (drain_substates db t n p limit)) in
+  scan_spec limit (v_view s n p) (map fst kvs) /\
+  N.of_nat (length kvs) = N.min limit (N.of_nat (length (v_view s n p))) /\
+  (forall k v, In (k, v) kvs -> al_get k (v_view s n p) = Some v) /\
+  (forall k, al_get k (v_view (spec_next db s (ODrain n p limit) (RKVs kvs)) n p) =
+             if mem k kvs then None else al_get k (v_view s n p)).
+Proof. exact drain_ok. Qed.
+
+Theorem C12_scan_sorted : forall db t s n p limit, db_wf db -> reach db t s ->
+  snd (fst (scan_sorted db t n p limit)) = firstn (N.to_nat limit) (v_view s n p) /\ sorted (v_view s n p).
+Proof. exact scan_sorted_ok. Qed.
+
+(* force_write panics exactly when the substate has no tracked entry (it was never loaded) *)
+Theorem C12_force_write_panics_iff : forall t n p k,
+  force_write t n p k = None <-> tlookup (t_nodes t) n p k = None.
+Proof. exact force_write_panics_iff. Qed.
+
+(* revert: the three unwrap()s are unreachable, and afterwards reads see the database overlaid with
+   the force-written snapshots only, no node is new *)
+Theorem C12_revert : forall db t s, db_wf db -> reach db t s ->
+  revert t <> None /\
+  forall t' n p k, no_blind_overwrite db t -> revert t = Some t' ->
+    snd (fst (get_substate db t' n p k)) = match fw_get (v_fw s) n p k with Some x => x | None => al_get k (db n p) end
+    /\ forall n', node_is_new (t_nodes t') n' = false.
+Proof.
+  intros db t s Hdb R. split; [exact (reach_revert_no_panic db t s Hdb R)|].
+  intros t' n p k Hnb E. exact (revert_view db t s t' n p k Hdb R Hnb E).
+Qed.
+
+(* known finding garbage-after-revert: without no_blind_overwrite the read after a revert is wrong *)
+Theorem C12_read_after_revert_refuted :
+  exists t s t', reach witness_db t s /\ revert t = Some t' /\
+    snd (fst (get_substate witness_db t' 0 0 0)) = None /\
+    al_get 0 (v_view (spec_next witness_db s ORevert RUnit) 0 0) = Some (1, 1).
+Proof. exact read_after_revert_refuted. Qed.
+
+(* non-vacuity: a concrete run with a write, a removal of a database entry, a sorted scan that merges
+   track and database entries, and a read of the own write *)
 Example C12_nonvacuous :
   let db : dbfun := fun n p => if (n =? 0) && (p =? 2) then [(1, (7, 9)); (3, (8, 9))] else [] in
   snd (run db track_new [OSet 0 2 2 (5, 4); ORemove 0 2 1; OScanSorted 0 2 5; OGet 0 2 2]) =
@@ -12,3 +74,12 @@ Example C12_nonvacuous :
     (RKVs [(2, (5, 4)); (3, (8, 9))], [EvReadDb 0 2 1 9; EvReadDb 0 2 3 9]);
     (ROpt (Some (5, 4)), []) ].
 Proof. vm_compute. reflexivity. Qed.
+
+Print Assumptions C12_refines_view.
+Print Assumptions C12_read_your_writes.
+Print Assumptions C12_scan_keys.
+Print Assumptions C12_drain.
+Print Assumptions C12_scan_sorted.
+Print Assumptions C12_force_write_panics_iff.
+Print Assumptions C12_revert.
+Print Assumptions C12_read_after_revert_refuted.
